@@ -159,8 +159,65 @@ def scoped_roles_check(kind, rows, D, impl_obs_probe, probe):
     return []
 
 
+def stratum_confusable_names(chk, n):
+    """tenant, role and subject names that are prefixes / concatenations of each other ("admin"+"10" vs "admin1"+"0"):
+    whatever text-level shortcut the implementation takes (keys built by joining names), a request in domain D must be
+    decided by D's rules and assignments only.  Implementation-level SPEC: decision = exists rule of D whose subject is
+    reachable from the request subject over D's assignments, for both ways of handing the domain to g()."""
+    import casbin
+    rng = chk.rng
+    names = ["a", "ab", "b", "admin", "admin1", "1", "10", "0", "01"]
+    doms = ["0", "10", "1", "00"]
+    texts = {"r.dom": mgmt.KINDS["dom"].model_text(), "p.dom": pdom_model_text(mgmt.KINDS["dom"])}
+    cnt = 0
+    for i in range(n):
+        how = "p.dom" if i % 2 else "r.dom"
+        m = casbin.Enforcer.new_model(text=texts[how])
+        e = casbin.Enforcer(m)
+        P, G = [], []
+        for _ in range(rng.randint(1, 5)):
+            r = [rng.choice(names), rng.choice(doms), "data", "read"]
+            if r not in P:
+                P.append(r)
+                e.add_policy(*r)
+        for _ in range(rng.randint(1, 5)):
+            u, r_ = rng.sample(names, 2)
+            g = [u, r_, rng.choice(doms)]
+            if g not in G:
+                G.append(g)
+                e.add_grouping_policy(*g)
+        cnt += 1
+        chk.count(("confusable-names", how, repr(P), repr(G)))
+        bad = None
+        for s_ in names:
+            for d in doms:
+                edges = {(a, b) for a, b, dd in G if dd == d}
+                reach, front = {s_}, [s_]
+                while front:
+                    x = front.pop()
+                    for a, b in edges:
+                        if a == x and b not in reach:
+                            reach.add(b)
+                            front.append(b)
+                want = any(r[1] == d and r[0] in reach for r in P)
+                got = bool(e.enforce(s_, d, "data", "read"))
+                if got != want:
+                    bad = (s_, d, got, want)
+                    break
+            if bad:
+                break
+        if bad:
+            chk.spec_fail(dict(stratum="confusable-names", domain_handed_to_g_as=how, model=texts[how], policy=P, grouping=G,
+                               request=[bad[0], bad[1], "data", "read"]), bad[2], bad[3],
+                          "a request in one domain is not decided by that domain's rules and assignments (names that are "
+                          "prefixes / concatenations of each other)")
+            break
+    chk.extra.setdefault("strata", {})["confusable_names"] = cnt
+
+
 def run(chk, n):
     rng = chk.rng
+    stratum_confusable_names(chk, max(60, n // 2))
     for kn in ("dom", "dom_deny"):
         kind = mgmt.KINDS[kn]
         cases = []
